@@ -64,15 +64,15 @@ type Ctl struct {
 	// Digest returns a fingerprint string of the visible state (only measured, never used for pruning).
 	Digest func() string
 
-	Fps       []uint64
-	EngineErr string
-	Panics    []string
-	Stuck     bool
-	StepLimit bool
-	MaxSteps  int
-	Horizon   time.Duration
+	Fps        []uint64
+	EngineErr  string
+	Panics     []string
+	Stuck      bool
+	StepLimit  bool
+	MaxSteps   int
+	Horizon    time.Duration
 	MaxEnabled int
-	dead      bool
+	dead       bool
 }
 
 func newCtl(prefix []Choice) *Ctl {
